@@ -16,6 +16,7 @@ CFG = """CONSTANTS
   MaxNodes = %d
   ZMode = "%s"
   Rich = %s
+  Wide = FALSE
 %s
 INVARIANTS Agree Once BgFirst Layering Atomic EmitScn
 %s
@@ -50,6 +51,10 @@ def run(ctx):
     for n, rich, num in ((4, "FALSE", 300), (5, "TRUE", 500)) if not thorough else ((4, "FALSE", 5000), (5, "FALSE", 5000), (4, "TRUE", 6000), (5, "TRUE", 6000), (6, "TRUE", 4000), (7, "TRUE", 2000)):
         res = ctx.tlc("Stacking", None, workers=8, cfg_text=CFG % (n, "full", rich, "INIT InitBuild\nNEXT Next", ""), simulate="num=%d" % num, depth=20 * n, timeout=3000)
         cov["simulated-%d-boxes%s" % (n, "-rich" if rich == "TRUE" else "")] = replay(ctx, res, "sim%d%s" % (n, rich))
+    # many sibling contexts with equal z-index (ties must be resolved in tree order, whatever the sorting algorithm)
+    res = ctx.tlc("Stacking", None, workers=8, cfg_text=(CFG % (16, "full", "FALSE", "INIT InitBuild\nNEXT Next", "")).replace("Wide = FALSE", "Wide = TRUE"),
+                  simulate="num=%d" % (40 if not thorough else 600), depth=400, timeout=3000)
+    cov["simulated-wide-16-sibling-contexts"] = replay(ctx, res, "wide")
     ctx.traces = sum(cov.values())
     return ctx.finish("model_checking", {
         "exhaustive": True, "evaluations": sum(cov.values()), "families": cov,
